@@ -1,5 +1,5 @@
 (* C01 -- Linen init/apply are pure functions with an explicit mutability contract. *)
-From Flaxm Require Import Lib.Harness Model.Filters Model.Linen Proofs.Linen.
+From Flaxm Require Import Lib.Harness Model.Filters Model.Linen Proofs.Linen Proofs.LinenInit Proofs.LinenSow.
 
 (* apply is a function of (program, mutable, variables, rngs, arguments): it is a Gallina function; the repeated-
    call oracle of the correspondence check is its implementation-side counterpart *)
@@ -38,6 +38,48 @@ Theorem C01_immutable_sow_is_noop : forall ev call p input fr s col nm e v,
   eval (f_locals fr) input e = Some v -> in_filter (e_mutable ev) col = false ->
   step ev call p input fr s (SSow col nm e) = Ok (fr, s).
 Proof. exact immutable_sow_is_noop. Qed.
+
+(* observation never changes the primary output: if the collection C is used by sow only (no variable of it is declared
+   or assigned, it is neither the params nor the perturbations collection), then taking C out of `mutable` -- so that
+   every sow stores nothing -- gives the same output and the same contents of every other collection, for every
+   module program, input and filter *)
+Theorem C01_sow_is_inert : forall C evA evB top vars x y sA,
+  e_streams evB = e_streams evA -> e_classes evB = e_classes evA -> e_params evB = e_params evA -> e_perturb evB = e_perturb evA ->
+  (forall c, c <> C -> in_filter (e_mutable evB) c = in_filter (e_mutable evA) c) -> in_filter (e_mutable evB) C = false ->
+  e_params evA <> C -> e_perturb evA <> C -> sow_only C (e_classes evA) = true ->
+  apply_m evA top vars x = Ok (y, sA) ->
+  exists sB, apply_m evB top vars x = Ok (y, sB) /\ forall c, c <> C -> cassoc c (s_vars sA) = cassoc c (s_vars sB).
+Proof. exact sow_is_inert. Qed.
+Print Assumptions C01_sow_is_inert.
+
+(* perturb without a perturbation collection returns its argument *)
+Theorem C01_perturb_without_collection : forall ev call p input fr s x nm e v,
+  eval (f_locals fr) input e = Some v -> in_filter (e_mutable ev) (e_perturb ev) = false -> cassoc (e_perturb ev) (s_vars s) = None ->
+  step ev call p input fr s (SPerturb x nm e) = Ok (mkFrame ((x, v) :: f_locals fr) (f_resv fr) (f_auto fr) (f_insts fr), s).
+Proof. exact perturb_without_collection. Qed.
+Print Assumptions C01_perturb_without_collection.
+
+(* the converse direction of C01_sow_is_inert is false, as in the code: a sown name is reserved only when something is
+   stored, so a later child of the same name is accepted by the non-observing run and rejected by the observing one *)
+Example C01_sow_reserves_only_when_stored :
+  let leaf : mclass := ([], EInput) in
+  let top : mclass := ([SSow 6 (NExp 9) EInput; SChild 1 7 (Some 9%N); SCall 1 1 EInput], ELocal 1) in
+  let ev m := mkEnv m [0%N] [(7%N, leaf); (0%N, top)] 0 4 in
+  match apply_m (ev (FBool true)) 0 [] [3]%Z, apply_m (ev (FDeny (FName 6))) 0 [] [3]%Z with
+  | Err ENameInUse, Ok (y, _) => y = [3]%Z
+  | _, _ => False end.
+Proof. vm_compute. reflexivity. Qed.
+
+Example C01_sow_example :
+  let leaf : mclass := ([SParam 1 (NExp 0) 0 2; SSow 6 (NExp 2) (EMul (ELocal 1) EInput); SSow 6 (NExp 2) EInput], EMul (ELocal 1) EInput) in
+  let top : mclass := ([SChild 1 7 None; SCall 1 1 EInput; SCall 2 1 (ELocal 1); SSow 6 (NExp 5) (ELocal 2)], ELocal 2) in
+  let ev m := mkEnv m [0%N] [(7%N, leaf); (0%N, top)] 0 4 in
+  sow_only 6 (e_classes (ev (FBool true))) = true /\
+  match apply_m (ev (FBool true)) 0 [] [3]%Z, apply_m (ev (FDeny (FName 6))) 0 [] [3]%Z with
+  | Ok (y, sA), Ok (y', sB) => y = y' /\ y = [12]%Z /\ cassoc 0%N (s_vars sA) = cassoc 0%N (s_vars sB) /\
+                               cassoc 6%N (s_vars sA) <> None /\ cassoc 6%N (s_vars sB) = None
+  | _, _ => False end.
+Proof. vm_compute. repeat split; try reflexivity. discriminate. Qed.
 
 (* non-vacuity: a nested program that updates batch_stats; with mutable='batch_stats' the params are untouched *)
 Example C01_example :
